@@ -341,3 +341,19 @@ Proof.
     hdr_tree_alloc_block_kround, hdr_tree_alloc_vhead_kround, hdr_tree_val_kround, hdr_tree_rem_copy_kround.
   repeat split; lia.
 Qed.
+
+(* dealloc's poison loop (model: `scribble`): it starts at the header and writes hdr_poison_words H w s words, an
+   expression read off the source.  With a header of k whole words that is the k header words plus every whole
+   word of the body - the header (type, class, magic) is always covered, and nothing beyond header + body is
+   written: (k + s / w) * w <= k * w + s. *)
+Lemma poison_covers :
+  forall k w s, 0 < w ->
+    hdr_poison_words (k * w) w s = k + s / w /\
+    hdr_poison_words (k * w) w s * w <= k * w + s.
+Proof.
+  intros k w s Hw.
+  assert (E : hdr_poison_words (k * w) w s = k + s / w).
+  { unfold hdr_poison_words. rewrite ?Nat.div_add_l, ?Nat.div_mul by lia. reflexivity. }
+  split; [exact E|]. rewrite E.
+  pose proof (Nat.mul_div_le s w ltac:(lia)). nia.
+Qed.
